@@ -818,6 +818,13 @@ class StmtMixin:
                     if o0.kind != "normal":
                         out.append(o0)
                         continue
+                    k_ = strip_opt(cm.ty)
+                    if k_.kind == "inst" and k_.name in self.reg.with_rely:
+                        o0.st.loopvars = dict(o0.st.loopvars)
+                        o0.st.loopvars["open_cms"] = tuple(o0.st.loopvars.get("open_cms", ())) + ((k_.name, Val.a(cm.t)),)
                     for o in self.exec_with(s, o0.st, is_async, idx + 1):
+                        if k_.kind == "inst" and k_.name in self.reg.with_rely:
+                            o.st.loopvars = dict(o.st.loopvars)
+                            o.st.loopvars["open_cms"] = tuple(x for x in o.st.loopvars.get("open_cms", ()) if not x[1].eq(Val.a(cm.t)))
                         out.extend(self.cm_exit(o, cm, is_async, item))
         return out
